@@ -207,7 +207,7 @@ def check_method(ctx, F, ty, meth, fn, npath, lpath, lterm_pred, tag):
                 if bi in loops:
                     problems.append("counting store inside a loop")
                 fs = facts_at(b, bi)
-                if not any(f[0] == "cmp" and f[1] == "Lt" and core(f[2])[:2] == ("param", 1) for f in fs):
+                if not any(f[0] == "cmp" and ((f[1] == "Lt" and core(f[2])[:2] == ("param", 1)) or (f[1] == "Gt" and core(f[3])[:2] == ("param", 1))) for f in fs):
                     problems.append("the +n+1 store is not dominated by n < remaining")
             for r in rv["None"]:
                 lim = [bi for bi, c in cls if c == "to-limit"]
